@@ -46,6 +46,22 @@ pub struct StackCase {
     pub mode: u8,
     pub body: u16,
     pub second_request: bool,
+    /// Host-header variants (as `host_header`) of further requests sent one after the other through
+    /// the same client: with keep-alive / HTTP/2 they travel on the connection of the first one
+    #[serde(default)]
+    pub extra: Vec<u8>,
+}
+
+impl StackCase {
+    /// Host-header variant of every request of the case, in order
+    pub fn variants(&self) -> Vec<u8> {
+        let mut v = vec![self.host_header % 4];
+        if self.second_request {
+            v.push(self.host_header % 4);
+        }
+        v.extend(self.extra.iter().map(|x| x % 4));
+        v
+    }
 }
 
 /// Records what the client writes to the network.
@@ -115,12 +131,18 @@ impl tower::Service<http::request::Parts> for RecTransport {
 }
 
 #[derive(Debug, Clone, Default)]
-pub struct Seen {
+pub struct SeenEntry {
+    pub seq: usize,
     pub version: Option<http::Version>,
     pub host: Option<String>,
     pub tls: Option<TlsConnectionInfo>,
     pub body_ok: bool,
-    pub count: usize,
+}
+
+/// What the application behind the SNI middleware saw, one entry per request that reached it
+#[derive(Debug, Clone, Default)]
+pub struct Seen {
+    pub entries: Vec<SeenEntry>,
 }
 
 type BoxError = Box<dyn std::error::Error + Send + Sync>;
@@ -153,7 +175,7 @@ impl Engine for StackEngine {
         let wire2 = wire.clone();
         let sni2 = sni_seen.clone();
         let auth2 = authority.clone();
-        type Out = (Option<Result<(u16, bool), String>>, Option<Result<u16, String>>, bool, Option<Result<u16, String>>);
+        type Out = (Vec<Result<(u16, bool), String>>, bool, Option<Result<u16, String>>);
         let res: Result<Out, ()> = (std::panic::catch_unwind(std::panic::AssertUnwindSafe(|| {
             rt.block_on(async move {
                 let (client, incoming) = hyperdriver::stream::duplex::pair();
@@ -166,12 +188,14 @@ impl Engine for StackEngine {
                         if parts.uri.path() == "/probe" {
                             return Ok::<_, std::io::Error>(http::Response::new(hyperdriver::Body::from("served".to_string())));
                         }
-                        let mut s = seen.lock().unwrap();
-                        s.count += 1;
-                        s.version = Some(parts.version);
-                        s.host = parts.headers.get("host").and_then(|h| h.to_str().ok()).map(String::from).or_else(|| parts.uri.authority().map(|a| a.to_string()));
-                        s.tls = parts.extensions.get::<TlsConnectionInfo>().cloned();
-                        s.body_ok = b.len() == body_len + SECRET.len() && b.ends_with(SECRET);
+                        let entry = SeenEntry {
+                            seq: parts.headers.get("x-seq").and_then(|h| h.to_str().ok()).and_then(|h| h.parse().ok()).unwrap_or(usize::MAX),
+                            version: Some(parts.version),
+                            host: parts.headers.get("host").and_then(|h| h.to_str().ok()).map(String::from).or_else(|| parts.uri.authority().map(|a| a.to_string())),
+                            tls: parts.extensions.get::<TlsConnectionInfo>().cloned(),
+                            body_ok: b.len() == body_len + SECRET.len() && b.ends_with(SECRET),
+                        };
+                        seen.lock().unwrap().entries.push(entry);
                         Ok::<_, std::io::Error>(http::Response::new(hyperdriver::Body::from("served".to_string())))
                     }
                 });
@@ -195,15 +219,16 @@ impl Engine for StackEngine {
                         .without_redirects()
                         .build_service()
                 };
-                let request = |scheme: &str| {
+                let request = |scheme: &str, seq: usize, variant: u8| {
                     let mut body: Vec<u8> = (0..body_len).map(|i| b'a' + (i % 26) as u8).collect();
                     body.extend_from_slice(SECRET);
                     let mut b = http::Request::builder()
                         .method("POST")
                         .version(if c2.h2 { http::Version::HTTP_2 } else { http::Version::HTTP_11 })
                         .uri(format!("{scheme}://{auth2}/{}?t={}", String::from_utf8_lossy(SECRET), String::from_utf8_lossy(SECRET)))
+                        .header("x-seq", seq)
                         .header("x-secret", std::str::from_utf8(SECRET).unwrap());
-                    match c2.host_header % 4 {
+                    match variant % 4 {
                         1 => b = b.header("host", HOSTS[c2.host as usize % HOSTS.len()].0.to_ascii_uppercase()),
                         2 => b = b.header("host", "evil.test"),
                         3 => b = b.header("host", format!("{}:8443", HOSTS[c2.host as usize % HOSTS.len()].0)),
@@ -223,18 +248,16 @@ impl Engine for StackEngine {
                     }
                 }
                 let svc = make_client(wire2.clone());
-                let mut first = None;
-                let mut second = None;
+                let mut results = vec![];
                 match c2.mode % 4 {
                     0 => {
-                        first = Some(send(svc.clone(), request("https")).await);
-                        if c2.second_request {
-                            second = Some(send(svc.clone(), request("https")).await.map(|r| r.0));
+                        for (seq, variant) in c2.variants().into_iter().enumerate() {
+                            results.push(send(svc.clone(), request("https", seq, variant)).await);
                         }
                     }
                     1 => {
                         // plaintext to the TLS listener through the real client (scheme http is not wrapped)
-                        first = Some(send(svc.clone(), request("http")).await);
+                        results.push(send(svc.clone(), request("http", 0, c2.host_header)).await);
                     }
                     2 => {
                         if let Ok(mut s) = client.connect(1024).await {
@@ -265,7 +288,7 @@ impl Engine for StackEngine {
                 };
                 drop(svc);
                 server.abort();
-                (first, second, server_alive, probe)
+                (results, server_alive, probe)
             })
         })))
         .map_err(|_| ());
@@ -275,7 +298,7 @@ impl Engine for StackEngine {
             rep.violate("C09/tls-panic-in-library", format!("panic at {loc}: {msg}"));
             rep.violate("C12/tls-panic-in-library", format!("panic at {loc}: {msg}"));
         }
-        let Ok((first, second, server_alive, probe)) = res else {
+        let Ok((results, server_alive, probe)) = res else {
             if panics.is_empty() {
                 rep.internal_error = Some(format!("harness panic at {}: {}", crate::panichook::last_location(), crate::panichook::last_message()));
             }
@@ -288,7 +311,7 @@ impl Engine for StackEngine {
         let alpn_conflict = (c_h2 || c_h1) && (s_h2 || s_h1) && !((c_h2 && s_h2) || (c_h1 && s_h1));
         let negotiated_h2 = c_h2 && s_h2;
         let negotiated_h1_only = !negotiated_h2 && c_h1 && s_h1;
-        let desc = format!("{c:?} (authority {authority}): first {first:?}, second {second:?}, handler saw {seen:?}, SNI {sni:?}, {} bytes on the wire, server alive {server_alive}, probe {probe:?}", wire.len());
+        let desc = format!("{c:?} (authority {authority}): results {results:?}, handler saw {seen:?}, SNI {sni:?}, {} bytes on the wire, server alive {server_alive}, probe {probe:?}", wire.len());
 
         // ---- C09: the TLS listener survives every per-connection fault
         if !server_alive {
@@ -309,56 +332,64 @@ impl Engine for StackEngine {
                     rep.violate("C12/fullstack-secret-in-the-clear", desc.clone());
                 }
                 let is_ip = host.starts_with('[') || host.parse::<std::net::Ipv4Addr>().is_ok();
-                // on an HTTP/2 connection the client removes a caller-supplied Host header (C13), so
-                // only HTTP/1 connections carry the foreign Host to the server
-                let host_hdr_mismatch = c.host_header % 4 == 2 && !(c.h2 || negotiated_h2);
                 // an HTTP/2 request over a connection that negotiated http/1.1 only is refused by the peer
                 let proto_conflict = c.h2 && negotiated_h1_only;
-                match &first {
-                    Some(Ok((status, served))) => {
-                        if !in_san {
-                            rep.violate("C12/fullstack-served-despite-certificate-mismatch", desc.clone());
+                let mut served_on_first_connection = 0;
+                let mut connection_unbroken = true;
+                for (seq, (variant, result)) in c.variants().into_iter().zip(results.iter()).enumerate() {
+                    // on an HTTP/2 connection the client removes a caller-supplied Host header (C13), so
+                    // only HTTP/1 connections carry the foreign Host to the server
+                    let host_hdr_mismatch = variant == 2 && !(c.h2 || negotiated_h2);
+                    let reached: Option<&SeenEntry> = seen.entries.iter().find(|e| e.seq == seq);
+                    let rdesc = format!("request {seq} (Host variant {variant}) -> {result:?}; {desc}");
+                    if reached.is_some() && !in_san {
+                        rep.violate("C12/fullstack-served-despite-certificate-mismatch", rdesc.clone());
+                    }
+                    if reached.is_some() && host_hdr_mismatch && !is_ip {
+                        rep.violate("C20/fullstack-forwarded-despite-host-mismatch", rdesc.clone());
+                    }
+                    if let Some(e) = reached {
+                        // ---- C20 integration: the application sees the server name and the flag
+                        if !is_ip {
+                            let want = host.to_ascii_lowercase();
+                            let got = e.tls.as_ref().and_then(|t| t.server_name.clone()).map(|s| s.to_ascii_lowercase());
+                            if got.as_deref() != Some(want.as_str()) {
+                                rep.violate("C20/fullstack-server-name-not-visible", format!("{rdesc}: expected server name {want}"));
+                            }
+                            if !e.tls.as_ref().map(|t| t.validated_server_name).unwrap_or(false) {
+                                rep.violate("C20/fullstack-not-marked-validated", rdesc.clone());
+                            }
+                            // every handshake of the case offered the URI host (the last entry may be the probe's, for example.com)
+                            let n = sni.len();
+                            if sni.iter().enumerate().any(|(i, s)| {
+                                let s = s.clone().map(|s| s.to_ascii_lowercase());
+                                s.as_deref() != Some(want.as_str()) && !(i + 1 == n && i > 0 && s.as_deref() == Some("example.com"))
+                            }) {
+                                rep.violate("C12/fullstack-wrong-server-name-offered", rdesc.clone());
+                            }
                         }
-                        if host_hdr_mismatch && !is_ip && seen.count > 0 {
-                            rep.violate("C20/fullstack-forwarded-despite-host-mismatch", desc.clone());
+                        // ---- C13: protocol = HTTP/2 iff requested or negotiated
+                        let want_h2 = c.h2 || negotiated_h2;
+                        let got_h2 = e.version == Some(http::Version::HTTP_2);
+                        if want_h2 != got_h2 {
+                            rep.violate("C13/fullstack-wrong-protocol", format!("{rdesc}: expected HTTP/{}", if want_h2 { 2 } else { 1 }));
                         }
-                        if *status == 200 && *served && seen.count > 0 {
-                            // ---- C20 integration: the application sees the server name and the flag
-                            if !is_ip {
-                                let want = host.to_ascii_lowercase();
-                                let got = seen.tls.as_ref().and_then(|t| t.server_name.clone()).map(|s| s.to_ascii_lowercase());
-                                if got.as_deref() != Some(want.as_str()) {
-                                    rep.violate("C20/fullstack-server-name-not-visible", format!("{desc}: expected server name {want}"));
-                                }
-                                if !seen.tls.as_ref().map(|t| t.validated_server_name).unwrap_or(false) {
-                                    rep.violate("C20/fullstack-not-marked-validated", desc.clone());
-                                }
-                                if sni.first().cloned().flatten().map(|s| s.to_ascii_lowercase()).as_deref() != Some(want.as_str()) {
-                                    rep.violate("C12/fullstack-wrong-server-name-offered", desc.clone());
-                                }
-                            }
-                            // ---- C13: protocol = HTTP/2 iff requested or negotiated
-                            let want_h2 = c.h2 || negotiated_h2;
-                            let got_h2 = seen.version == Some(http::Version::HTTP_2);
-                            if want_h2 != got_h2 {
-                                rep.violate("C13/fullstack-wrong-protocol", format!("{desc}: expected HTTP/{}", if want_h2 { 2 } else { 1 }));
-                            }
-                            if !seen.body_ok {
-                                rep.violate("C12/fullstack-body-altered", desc.clone());
-                            }
-                            rep.class("served-over-tls");
-                            if got_h2 {
-                                rep.class("served-h2");
-                            } else {
-                                rep.class("served-h1");
-                            }
+                        if !e.body_ok {
+                            rep.violate("C12/fullstack-body-altered", rdesc.clone());
+                        }
+                        rep.class("served-over-tls");
+                        rep.class(if got_h2 { "served-h2" } else { "served-h1" });
+                        if connection_unbroken {
+                            served_on_first_connection += 1;
                         }
                     }
-                    Some(Err(_)) => {
-                        let must_succeed = in_san && !alpn_conflict && !proto_conflict && !(host_hdr_mismatch && !is_ip) && !(is_ip && c.host_header % 4 != 2 && false);
+                    let fine = matches!(result, Ok((200, true))) && reached.is_some();
+                    if !fine {
+                        connection_unbroken = false;
+                        let must_succeed = in_san && !alpn_conflict && !proto_conflict && !host_hdr_mismatch;
                         // IP-literal hosts carry no server name: the SNI middleware rejects them (missing SNI)
                         if must_succeed && !is_ip {
-                            rep.violate("C20/fullstack-rejected-although-host-matches", desc.clone());
+                            rep.violate("C20/fullstack-rejected-although-host-matches", rdesc.clone());
                         }
                         if host_hdr_mismatch {
                             rep.class("rejected-host-mismatch");
@@ -367,12 +398,17 @@ impl Engine for StackEngine {
                             rep.class("rejected-certificate");
                         }
                     }
-                    None => {}
+                }
+                if served_on_first_connection >= 3 {
+                    rep.class("3+-requests-served-in-a-row");
+                }
+                if c.variants().len() >= 3 && c.variants()[2..].contains(&2) {
+                    rep.class("foreign-host-on-3rd-or-later-request");
                 }
             }
             1 => {
                 rep.class("plaintext-to-tls-listener");
-                if matches!(first, Some(Ok(_))) {
+                if matches!(results.first(), Some(Ok(_))) {
                     rep.violate("C09/tls-listener-served-plaintext", desc.clone());
                 }
             }
@@ -404,6 +440,7 @@ pub fn strategy() -> impl proptest::strategy::Strategy<Value = StackCase> {
         prop_oneof![6 => Just(0u8), 1 => Just(1u8), 1 => Just(2u8), 1 => Just(3u8)],
         prop_oneof![Just(0u16), 1u16..200, 200u16..20000],
         any::<bool>(),
+        prop_oneof![2 => Just(vec![]), 3 => proptest::collection::vec(prop_oneof![3 => Just(0u8), 1 => Just(1u8), 2 => Just(2u8), 1 => Just(3u8)], 1..5)],
     )
-        .prop_map(|(host, port, h2, alpn, host_header, mode, body, second_request)| StackCase { host, port, h2, alpn, host_header, mode, body, second_request })
+        .prop_map(|(host, port, h2, alpn, host_header, mode, body, second_request, extra)| StackCase { host, port, h2, alpn, host_header, mode, body, second_request, extra })
 }
